@@ -104,6 +104,10 @@ class Func:
         self.captures = {}  # param -> {(state attr, key)}: the argument is stored into keyed per-object state
         self.cache_events = set()  # (target attr, key, aliased state root, stmt text, line, via)
         self.keyed_stores = set()  # (target attr, key, stmt text): every store into keyed per-object state
+        # (state attr root, normalised key) -> {'fill' | 'clear'}: slots of per-object containers this function
+        # rebinds, itself or through resolved callees (key: const:<v> | param:<name> | ?:<text>)
+        self.slot_stores = {}
+        self.slot_restores = set()  # slots rebound to a value read from the same slot earlier (save / restore)
         self.attr_out = {}  # 'self.X' -> parameters the attribute may alias when the method returns
         self.ret = frozenset()
         # the tuple shape of the returned (yielded, for generators) value is syntactic
@@ -615,15 +619,37 @@ class FuncAnalysis:
                         ent["origins"][oid] = w
                         P.via[(f.key, r, oid)] = (cfg_head(stmt), callee.key, k)
 
-    def cache_store(self, target_roots, key, vroots, stmt, via=""):
+    def key_norm(self, key):
+        """const:<v> | param:<name> | ?:<text> for the key text of a slot store in this function"""
+        f = self.f
+        if key is None or key.startswith(("const:", "param:", "?:")):
+            return key
+        if key in f.all_params:
+            return "param:" + key
+        consts = [n.value for n in pf.walk_no_nested(f.node) if isinstance(n, ast.Assign) and len(n.targets) == 1
+                  and isinstance(n.targets[0], ast.Name) and n.targets[0].id == key]
+        if len(consts) == 1 and isinstance(consts[0], ast.Constant):
+            return "const:%r" % (consts[0].value,)
+        return "?:" + key
+
+    def cache_store(self, target_roots, key, vroots, stmt, via="", vnode=None):
         """a value with roots `vroots` is stored into a slot of per-object state `target_roots` (keyed by
         `key` when the slot is selected by a run-time key)"""
         f = self.f
+        cleared = (isinstance(vnode, ast.Constant) and vnode.value is None) or (
+            isinstance(vnode, (ast.List, ast.Tuple, ast.Dict)) and not (vnode.keys if isinstance(vnode, ast.Dict) else vnode.elts))
         for t in target_roots:
             if not t.startswith("self."):
                 continue
             tparts, tkey = state_parts(t)
             k = key if key is not None else tkey
+            if tkey is not None and not tkey.startswith("const:") and (k is None or k.startswith("const:")):
+                k = tkey  # self.A[spin]["name"] = v: the run-time key selects the slot
+            if k is not None and not via:
+                slot = ("self." + ".".join(tparts), self.key_norm(k))
+                self.new_slots.setdefault(slot, set()).add("clear" if cleared else "fill")
+                if any(r.startswith("self.") and state_parts(r)[0] == tparts for r in vroots):
+                    self.new_restores.add(slot)
             if k is None or k.startswith("const:"):
                 continue  # a single slot (or a fixed one): overwritten as a whole by the next producer
             self.new_keyed.add(("self." + ".".join(tparts), k, cfg_head(stmt)[:100]))
@@ -658,6 +684,9 @@ class FuncAnalysis:
                 key = "self." + e.value.attr
                 if key not in env:
                     return frozenset(["%s[%s]" % (key, _key_text(e.slice))])
+            two = self._two_level(e.value, env)
+            if two is not None and _simple_index(e.slice):
+                return frozenset(["%s[%s]" % (two, _key_text(e.slice))])
             return self.ev(e.value, env, stmt)
         if isinstance(e, ast.Starred):
             return self.ev(e.value, env, stmt)
@@ -711,6 +740,13 @@ class FuncAnalysis:
             if isinstance(ch, ast.expr):
                 self.ev(ch, env, stmt)
         return frozenset()
+
+    def _two_level(self, e, env):
+        """`self.a.X` (a not rebound in this function) -> 'self.a.X'"""
+        if isinstance(e, ast.Attribute) and isinstance(e.value, ast.Attribute) and self.is_self(e.value.value) \
+                and ("self." + e.value.attr) not in env:
+            return "self.%s.%s" % (e.value.attr, e.attr)
+        return None
 
     def map_root(self, r, bind, recv, recv_roots, env):
         """a root of the callee's summary -> roots in this function"""
@@ -766,7 +802,9 @@ class FuncAnalysis:
                     vr = frozenset()
                     for a in argv:
                         vr |= a
-                    self.cache_store(recv_roots, None, vr, stmt)
+                    two = self._two_level(fn.value.value, env) if isinstance(fn.value, ast.Subscript) else None
+                    self.cache_store(recv_roots if two is None else frozenset(["%s[%s]" % (two, _key_text(fn.value.slice))]),
+                                     None, vr, stmt)
                     self.write(frozenset(r for r in recv_roots if not is_state(r)), stmt, ("store",))
                 else:
                     self.write(recv_roots, stmt, ("store",))
@@ -810,6 +848,17 @@ class FuncAnalysis:
                         self.new_state.setdefault(m, set()).add("%s -> %s" % (cfg_head(stmt)[:50], callee.qual))
                     elif not is_state(m):
                         self.write(frozenset([m]), stmt, ("store",))
+            # slots of per-object containers the callee rebinds (and restores)
+            if strong:
+                for (root, key), kinds in callee.slot_stores.items():
+                    for m in self.map_root(root, bind, recv, frozenset(), {}):
+                        if m.startswith("self."):
+                            k2 = self._map_key(callee, c, recv, key)
+                            self.new_slots.setdefault((m.split("[")[0], k2), set()).update(kinds)
+                for (root, key) in callee.slot_restores:
+                    for m in self.map_root(root, bind, recv, frozenset(), {}):
+                        if m.startswith("self."):
+                            self.new_restores.add((m.split("[")[0], self._map_key(callee, c, recv, key)))
             # parameters the callee stores into keyed per-object state
             for k, caps in (callee.captures.items() if strong else ()):
                 vr = bind.get(k, frozenset())
@@ -833,6 +882,36 @@ class FuncAnalysis:
             for r in callee.ret:
                 out |= self.map_root(r, bind, recv, recv_roots, env)
         return out
+
+    def _map_key(self, callee, c, recv, key):
+        """a slot key of the callee's summary expressed in this function: a parameter key becomes the argument
+        passed for it (or the callee's default)"""
+        if key is None or not key.startswith("param:"):
+            return key
+        pname = key[6:]
+        params = list(callee.params)
+        if (recv == "new") or ((callee.self_name or callee.is_classmethod) and recv is not None):
+            params = params[1:]
+        node = None
+        for i, a in enumerate(c.args):
+            if i < len(params) and params[i] == pname and not isinstance(a, ast.Starred):
+                node = a
+        for k in c.keywords:
+            if k.arg == pname:
+                node = k.value
+        if node is None:
+            a = callee.node.args
+            pos = a.posonlyargs + a.args
+            dflt = dict(zip([x.arg for x in pos[len(pos) - len(a.defaults):]], a.defaults))
+            dflt.update({x.arg: d for x, d in zip(a.kwonlyargs, a.kw_defaults) if d is not None})
+            node = dflt.get(pname)
+        if node is None:
+            return "?:" + pname
+        if isinstance(node, ast.Constant):
+            return "const:%r" % (node.value,)
+        if isinstance(node, ast.Name):
+            return self.key_norm(node.id)
+        return "?:" + pf.src(node)
 
     def bind_args(self, callee, c, argv, kwv, recv, recv_roots):
         bind = {}
@@ -900,12 +979,15 @@ class FuncAnalysis:
             self.bind(target.value, v, env, stmt, None)
         elif isinstance(target, ast.Subscript):
             base = self.ev(target.value, env, stmt)
+            two = self._two_level(target.value, env)
+            if two is not None:
+                base = frozenset([two])
             self.ev(target.slice, env, stmt)
             state_slot = _simple_index(target.slice) and base and all(r.startswith("self.") for r in base)
             if state_slot:
                 # self.A[key] = v / self.A[key][name] = v: a slot of per-object state is rebound to v
-                key = None if isinstance(target.slice, ast.Constant) else _key_text(target.slice)
-                self.cache_store(base, key, v, stmt)
+                key = _key_text(target.slice)
+                self.cache_store(base, key, v, stmt, vnode=value_node)
             else:
                 self.write(base, stmt, ("store",))
             b = target.value
@@ -1014,6 +1096,8 @@ class FuncAnalysis:
         self.new_captures = {}
         self.new_events = set()
         self.new_keyed = set()
+        self.new_slots = {}
+        self.new_restores = set()
         self.new_ret = set()
         self.new_pos = [set() for _ in range(f.ret_shape)] if f.ret_shape else None
         g = cfgm.CFG(f.node)
@@ -1052,6 +1136,9 @@ class FuncAnalysis:
             changed = True
         f.cache_events = self.new_events
         f.keyed_stores = self.new_keyed
+        if self.new_slots != f.slot_stores or self.new_restores != f.slot_restores:
+            f.slot_stores, f.slot_restores = self.new_slots, self.new_restores
+            changed = True
         exit_env = ins.get(g.exit.id) or {}
         attr_out = {k: frozenset(r for r in v if not is_state(r)) for k, v in exit_env.items()
                     if k.startswith("self.") and any(not is_state(r) for r in v)}
